@@ -9,6 +9,11 @@
 #     request ids across the 2^32 wrap) and on a real opcua.Client (typed API, safeAssign) against
 #     a scripted server built on a real server channel; the outcome of every call, the response it
 #     returns, the request ids used and single delivery are compared with the specification.
+#     Responses carry a ByteString (every 4th case: big enough for several chunks) that is compared
+#     byte for byte with what the server sent after further messages were received. A second model
+#     configuration has only two request ids, so the counter wraps onto ids that may still be pending
+#     (realised with uasc.VerifSetRequestID): the duplicate registration must be refused and the first
+#     user of the id must still get its response.
 #  4. Many-caller runs (random answer permutations, a request pending while >256 / >65536 other
 #     request ids are used) are checked against the same invariants.
 import json
@@ -29,6 +34,9 @@ def body(run):
         lambda: run.tlc("ScCorr", "ScCorr", "ScCorr_gen_c18_q.cfg", mode="gen", count=False, timeout=1500,
                         label="scripts: 2 callers"),
         lambda: exe.__setitem__(0, run.go_build("sccorr")),
+        lambda: run.tlc("ScCorr", "ScCorr", "ScCorr_mc_collide.cfg", label="contract: ids reused while pending, all interleavings", timeout=1500, workers=2),
+        lambda: run.tlc("ScCorr", "ScCorr", "ScCorr_gen_c18_collide.cfg", mode="gen", count=False, timeout=1500,
+                        label="scripts: id wrap onto pending requests"),
     ]
     if not q:
         jobs += [
@@ -45,20 +53,24 @@ def body(run):
     n = run.pick(160, 2500)
     sample, nclasses = sc.stratified(rows, n, run.seed)
     cases = sc.mk_cases(sample, "script", 3, 4, run.seed)
+    # every script of the collision model, at both levels (VerifSetRequestID realises the wrap)
+    cases += sc.mk_cases(res[6].rows, "script", 0, 2, run.seed, client_share=2, start=len(cases), collide=True)
     if not q:
-        s2, nc2 = sc.stratified(res[7].rows, 1500, run.seed + 1)
+        s2, nc2 = sc.stratified(res[9].rows, 1500, run.seed + 1)
         cases += sc.mk_cases(s2, "script", 2, 4, run.seed, start=len(cases))
         nclasses += nc2
-        rows = rows + res[7].rows
+        rows = rows + res[9].rows
     # many-caller runs
     base = len(cases)
-    stress = [dict(callers=8, rounds=3, stride=1, wrap=False), dict(callers=8, rounds=2, stride=300, wrap=True)]
+    stress = [dict(callers=8, rounds=3, stride=1, wrap=False), dict(callers=8, rounds=2, stride=300, wrap=True),
+              dict(callers=6, rounds=3, stride=1, wrap=False, big=True)]
     if not q:
         stress += [dict(callers=64, rounds=4, stride=1, wrap=True), dict(callers=64, rounds=2, stride=70000, wrap=False),
-                   dict(callers=300, rounds=2, stride=1, wrap=False), dict(callers=8, rounds=3, stride=1, wrap=False, level="client")]
+                   dict(callers=300, rounds=2, stride=1, wrap=False), dict(callers=8, rounds=3, stride=1, wrap=False, level="client"),
+                   dict(callers=32, rounds=4, stride=1, wrap=True, big=True), dict(callers=8, rounds=3, stride=1, wrap=False, level="client", big=True)]
     for i, s in enumerate(stress):
         cases.append({"n": base + i, "mode": "stress", "level": s.get("level", "uasc"), "wrap": s["wrap"], "callers": s["callers"],
-                      "rounds": s["rounds"], "stride": s["stride"], "beh": {"steps": [], "results": []}})
+                      "rounds": s["rounds"], "stride": s["stride"], "big": s.get("big", False), "beh": {"steps": [], "results": []}})
     run.log("TLC: %d states; %d scripts generated (%d classes), %d sampled, %d many-caller runs" % (
         run.cov["states"], len(rows), nclasses, len(cases) - len(stress), len(stress)))
     results = run.go_run(exe[0], ["-prop", "C18"], cases=cases, timeout=run.pick(600, 2400))
